@@ -317,6 +317,8 @@ var c20CtxHandlers = []struct {
 	{"nil", func(int) jtypes.ArgHandler { return nil }},
 	{"ArgCountEquals(np-1)", func(np int) jtypes.ArgHandler { return jtypes.ArgCountEquals(np - 1) }},
 	{"ArgCountEquals(0)", func(int) jtypes.ArgHandler { return jtypes.ArgCountEquals(0) }},
+	{"always", func(int) jtypes.ArgHandler { return func([]reflect.Value) bool { return true } }}, // fires on a full argument list too
+	{"ArgCountEquals(np)", func(np int) jtypes.ArgHandler { return jtypes.ArgCountEquals(np) }},
 }
 var c20UndHandlers = []struct {
 	name string
@@ -344,6 +346,12 @@ func c20Predict(f *c20Fn, args []c20Kind, ctxH, undH int, ctxPayload string, ctx
 		}
 	case 2:
 		if len(argv) == 0 {
+			argv = append([]arg{{k: ctxKind, ctx: true}}, argv...)
+		}
+	case 3:
+		argv = append([]arg{{k: ctxKind, ctx: true}}, argv...)
+	case 4:
+		if len(argv) == np {
 			argv = append([]arg{{k: ctxKind, ctx: true}}, argv...)
 		}
 	}
